@@ -2095,7 +2095,10 @@ class Record(ak._connect._numpy.NDArrayOperatorsMixin):
         )
 
     def __contains__(self, element):
-        for test in ak._util.completely_flatten(self.layout):
+        layout = self.layout
+        for test in ak._util.completely_flatten(
+            layout.array[layout.at : layout.at + 1]
+        ):
             if element in test:
                 return True
         return False
